@@ -81,6 +81,17 @@ Definition c04_model_obs (c : term) : term :=
     let s := as_str (VDict d) in
     TList [TStr s; obs_view (v_as_dict (VStr s))
                      (fun d => TList (map (fun kv => TStrs [as_str (fst kv); as_str (snd kv)]) d))]
+  else if is_case c "reqt" then
+    (* a value born from typed data: its string is the string of the data whatever was viewed first *)
+    let t := term_nth c 1 in
+    let k := term_str (term_nth t 0) in
+    let v := if str_eqb k (lit "i") then VInt (term_int (term_nth t 1))
+             else if str_eqb k (lit "f") then
+               match get_float (term_str (term_nth t 1)) with Some f => VFlt f | None => VStr [] end
+             else if str_eqb k (lit "b") then VBool (Z.eqb (term_int (term_nth t 1)) 1)
+             else if str_eqb k (lit "l") then VList (map VStr (term_strs (term_nth t 1)))
+             else VDict (list_to_dict (map VStr (term_strs (term_nth t 1)))) in
+    TList [TStr (as_str v); TStr (as_str v)]
   else if is_case c "req" then
     let s := term_str (term_nth c 1) in
     (* a value and its clone share one cell *)
@@ -99,7 +110,8 @@ Definition c04_model_obs (c : term) : term :=
 Definition c04_spec_ok (c obs : term) : bool :=
   match term_list obs with
   | [a; b] =>
-      if is_case c "int" then
+      if is_case c "reqt" then term_eqb a b
+      else if is_case c "int" then
         (* the string converts back to the same integer *)
         term_eqb b (TTag "Ok" [TInt (term_int (term_nth c 1))])
       else if is_case c "flt" then term_eqb b (TBool true)
